@@ -31,7 +31,7 @@ def _ref_item(entry, param):
         tb = entry['type'] | (0x40 if entry.get('ro') else 0) | (0x10 if entry.get('extended') else 0)
     else:
         tb = entry['type']
-    return bytes([tb]) + entry['group'].encode() + b'\0' + entry['name'].encode() + b'\0'
+    return bytes([tb]) + entry['group'].encode('ISO-8859-1') + b'\0' + entry['name'].encode('ISO-8859-1') + b'\0'
 
 
 def _build_toc(entries, param):
@@ -180,7 +180,8 @@ def run_direct(case):
     return out
 
 
-_ident = st.text(alphabet='abcdefghijklmnopqrstuvwxyzABCDEFGHIJKLMNOPQRSTUVWXYZ0123456789_', min_size=1, max_size=10)
+# names are bytes of the device decoded as ISO-8859-1: any character up to 0xFF can occur
+_ident = st.text(alphabet='abcdefghijklmnopqrstuvwxyzABCDEFGHIJKLMNOPQRSTUVWXYZ0123456789_' + '\xe9\xdf\xff\xa0\x80\xb5', min_size=1, max_size=10)
 
 
 @st.composite
